@@ -25,6 +25,14 @@ NOTES = {
  "C16-m3": "thin at first (2 histories) -> `fam_sanitize_siblings`",
  "C20-m4": "thin at first (3 trees) -> trees with exactly ten ids",
  "C19-m4": "thin at first (4 programs) -> bare scheduler / sequence arguments, schedulers created empty",
+ "C19-m5": "missed at first (`update()` was always given a list) -> tuples, sets and iterators too",
+ "C20-m6": "missed at first (a tree was only rendered once in its final shape) -> rendered, then grown / listed per nested scheduler, then rendered again",
+ "C02-m6": "hung the recorder at first (the library left the virtual loop for a real one) -> wall-clock watchdog in every driver; `RuntimeError`-flavoured job exceptions",
+ "C05-m5": "thin and attributed to C11 only at first -> `nested_abort_ties` family, early end of a cancelled nested run attributed by the parent's cause",
+ "C08-m5": "missed at first (no scheduler was ever given a `watch`) -> `watch` harness parameter",
+ "C08-m6": "rejected but attributed to C13 only at first -> `shutdown-swallows-cancel` clause, attributed by the parent's cause",
+ "C03-m5": "thin at first -> `failed_nested_successors` family",
+ "C12-m5": "missed at first (settings were only passed to constructors) -> `lateattr`: settings assigned as attributes after construction",
 }
 rows = ["| id | property | change | what the check of that property reports (quick tier) |", "|---|---|---|---|"]
 for d in sorted(glob.glob(os.path.join(ROOT, "seeded", "*"))):
